@@ -61,12 +61,14 @@ def enc_val(v):
         return '4:' + str(v)
     if isinstance(v, ipaddress.IPv6Address):
         return '6:' + enc(str(v))
-    return 'o'
+    return 'o' if v else 'n'      # 'n': None / falsy object of another type; 'o': truthy one
 
 
 def dec_val(t):
-    if t == 'o':
+    if t == 'n':
         return None
+    if t == 'o':
+        return 1.5
     k, _, r = t.partition(':')
     if k == 's':
         return dec(r)
@@ -139,8 +141,11 @@ def o_ip(s):
 
 
 def expect_port(v, maxdigits):
-    """-> ('ok', n) | ('ValueError',) | ('TypeError',) | None (don't care)"""
-    if isinstance(v, int):        # bool included: an int subclass
+    """-> ('ok', n) | ('ValueError',) | ('TypeError',) | ('ok?', n) (may be accepted as n or
+    refused) | None (don't care)"""
+    if isinstance(v, bool):       # an int subclass; the property does not say whether it counts
+        return ('ok?', 1) if v else ('ValueError?',)
+    if isinstance(v, int):
         return ('ok', int(v)) if 1 <= v <= 65535 else ('ValueError',)
     if isinstance(v, str):
         n = o_decimal_value(v)
@@ -230,12 +235,33 @@ class Case:
             mode, rxenc, name, s = self.args
             return {'op': 'rx', 'args': [mode, rxenc, name, enc(s)],
                     'pattern': repr(RX_OBJECTS[name].pattern), 'flags': int(RX_OBJECTS[name].flags)}
+        if self.op == 'svcd':
+            return {'op': 'svcd', 'args': [enc_val(self.args[0])] + g_entries(self.args[1]),
+                    'repr': [repr(self.args[0])[:120], repr(self.args[1])[:300]]}
         return {'op': self.op, 'args': [enc_val(py_other(a)) for a in self.args],
                 'repr': [repr(py_other(a))[:120] for a in self.args]}
 
 
 def exc_name(e):
     return type(e).__name__
+
+
+PARTS = {'h': 1, 'p': 2, 'r': 0}     # ServicePart values
+
+
+def g_entries(table):
+    """table {(protocol or None, 'h'|'p'|'r'): value} -> driver tokens"""
+    return [f"{'~' if k is None else enc(k)}/{part}={enc_val(v)}" for (k, part), v in sorted(
+        table.items(), key=lambda kv: (kv[0][0] is not None, kv[0][0] or '', kv[0][1]))]
+
+
+def g_decode(tokens):
+    table = {}
+    for t in tokens:
+        left, val = t.split('=')
+        k, part = left.split('/')
+        table[(None if k == '~' else dec(k), part)] = dec_val(val)
+    return table
 
 
 def run_case(c, maxdigits):
@@ -318,7 +344,7 @@ def run_case(c, maxdigits):
             try:
                 r = util.validate_port(v)
                 c.impl = f'ok {int(r)}'
-                if want is not None and want[0] != 'ok':
+                if want is not None and want[0] not in ('ok', 'ok?'):
                     c.viol = ('c18:port-accepts-invalid', f'validate_port({v!r}) = {r!r}, expected {want[0]}')
                 elif want is not None and (not isinstance(r, int) or int(r) != want[1]):
                     c.viol = ('c18:port-wrong-value', f'validate_port({v!r}) = {r!r}, expected {want[1]}')
@@ -326,7 +352,7 @@ def run_case(c, maxdigits):
                 c.impl = exc_name(e)
                 if want is not None and want[0] == 'ok':
                     c.viol = ('c18:port-rejects-valid', f'validate_port({v!r}) raised {exc_name(e)}')
-                elif want is not None and want[0] != exc_name(e):
+                elif want is not None and not want[0].endswith('?') and want[0] != exc_name(e):
                     c.viol = ('c18:port-wrong-exception', f'validate_port({v!r}) raised {exc_name(e)}, expected {want[0]}')
         elif op == 'split':
             s = a[0]
@@ -398,6 +424,40 @@ def run_case(c, maxdigits):
             why = svc_invalid(obj)
             if why and not c.viol:
                 c.viol = ('c18:service-accepts-invalid:' + why[0], f'Service({p!r}, {ad!r}) constructed: {why[1]}')
+        elif op == 'addrd':
+            v, dh, dp = a
+            strs = [x for x in (v, dh) if isinstance(x, str)]
+            c.line = f'addrd {enc_val(v)} {enc_val(dh)} {enc_val(dp)}' + fmt_table(table_for(strs))
+            try:
+                obj = util.NetAddress.from_string(v, default_func=util.NetAddress.default_host_and_port(dh, dp))
+                c.impl = 'ok ' + fmt_addr(obj)
+                why = addr_invalid(obj)
+                if why:
+                    c.viol = ('c18:netaddress-accepts-invalid:' + why[0],
+                              f'NetAddress.from_string({v!r}, defaults {dh!r}, {dp!r}): {why[1]}')
+            except VT as e:
+                c.impl = exc_name(e)
+        elif op == 'svcd':
+            v, table = a
+            rev = {1: 'h', 2: 'p', 0: 'r'}
+
+            def g(protocol, part):
+                return table.get((protocol, rev[int(part)]))
+            strs = [v] + [x for x in table.values() if isinstance(x, str)]
+            c.line = ' '.join(['svcd', enc_val(v)] + g_entries(table)) + fmt_table(table_for(strs))
+            contract = table.get((None, 'r')) is None or isinstance(table.get((None, 'r')), str)
+            try:
+                obj = util.Service.from_string(v, default_func=g)
+                c.impl = 'ok ' + fmt_svc(obj)
+                why = svc_invalid(obj)
+                if why:
+                    c.viol = ('c18:service-accepts-invalid:' + why[0], f'Service.from_string({v!r}, default_func): {why[1]}')
+            except VT as e:
+                c.impl = exc_name(e)
+            except AttributeError as e:
+                c.impl = exc_name(e)
+                if contract:    # the callback kept its contract, so this is the code's own failure
+                    c.viol = ('c18:other-exception:svcd', f'Service.from_string({v!r}, default_func) raised AttributeError')
         elif op == 'rx':
             mode, rxenc, name, s = a
             c.line = f'rx {mode} {rxenc} {enc(s)}'
@@ -455,6 +515,19 @@ def roundtrip(obj, cls, fmt, what, how):
 RX_OBJECTS = {}
 
 
+def bool_port_refused(c):
+    """The property speaks of integers and digit strings; whether `True`/`False` count as the
+    integers 1/0 (as the code and the model have it) or are refused outright is not fixed by it, so
+    a refusal of a bool port is not compared with the model."""
+    if c.op == 'port':
+        v = py_other(c.args[0])
+    elif c.op == 'mkaddr':
+        v = py_other(c.args[1])
+    else:
+        return False
+    return isinstance(v, bool) and c.impl in ('TypeError', 'ValueError')
+
+
 def evaluate(ctx, cases, res, tag):
     md = ctx.facts.get('max_str_digits', sys.get_int_max_str_digits())
     for c in cases:
@@ -463,11 +536,11 @@ def evaluate(ctx, cases, res, tag):
     for i, c in enumerate(cases):
         if c.viol:
             res.violation(c.viol[0], c.record(), c.viol[1], impl=c.impl, scope=tag)
-        if model is not None and model[i] != c.impl:
+        if model is not None and model[i] != c.impl and not bool_port_refused(c):
             res.disagreement(c.record(), c.impl, model[i], scope=tag, line=c.line[:300])
         res.count('op:' + c.op)
-        if c.impl is not None:
-            res.count('outcome:' + c.impl.split(' ')[0].split(':')[0])
+        if c.impl is not None and c.op not in ('split', 'show4', 'ip4', 'rx'):
+            res.count(f'outcome:{c.op}:' + c.impl.split(' ')[0].split(':')[0])
         if c.impl and c.impl.startswith('ok') and c.op != 'split':
             res.nontrivial((c.op, c.line))
     res['evaluations'] += len(cases)
@@ -611,7 +684,7 @@ def run_sweeps(ctx, res):
 
 
 # ---------------------------------------------------------------- regex engine correspondence
-def rx_encode(form):
+def rx_encode(form, key='items'):
     def atom(a):
         if a[0] == 'cls':
             cls = ','.join(f'{lo:x}-{hi:x}' for lo, hi in form['classes'][a[1]])
@@ -620,7 +693,7 @@ def rx_encode(form):
             return '^'
         return '$' if a[1] == 'dollar' else 'Z'
     items = []
-    for it in form['items']:
+    for it in form[key]:
         if it[0] == 'opt':
             items.append('?(' + '&'.join(atom(x) for x in it[1]) + ')')
         else:
@@ -677,11 +750,13 @@ def regex_cases(ctx, res, rng):
             continue
         name = form['name']
         RX_OBJECTS[name] = getattr(util, name)
-        encd = rx_encode(form)
+        raw = rx_encode(form, 'raw_items')      # as parsed: must agree under every mode
+        norm = rx_encode(form)                  # normalised for the mode actually used
         extra = ['a' * 62, 'a' * 63, 'a' * 64, 'a' * 63 + '\n', 'tcp\n', 't,p', '1\n', '\n', 'a\n\n']
-        for mode in ('match', 'fullmatch', 'search'):
-            for s in strings + extra:
-                cases.append(Case('rx', mode, encd, name, s))
+        for s in strings + extra:
+            for mode in ('match', 'fullmatch', 'search'):
+                cases.append(Case('rx', mode, raw, name, s))
+            cases.append(Case('rx', form['mode'], norm, name, s))
     # random linear regexes: validates the regex semantics of the model and the extractor in general
     real_probe = facts_c18.effective_class
     facts_c18.effective_class = fast_class
@@ -802,7 +877,7 @@ def gen_ipv6_text(rng):
     elif r < 0.35:
         s = ':'.join(groups[:6]) + ':' + '.'.join(str(rng.randrange(256)) for _ in range(4))
     if rng.random() < 0.3:
-        s += '%' + ''.join(rng.choice('eth0]:[/ \n-') for _ in range(rng.randint(1, 4)))
+        s += '%' + rng.choice([''.join(rng.choice('eth0]:[/ \n-') for _ in range(rng.randint(1, 4))), '://', ']:80', 'eth0'])
     return s
 
 
@@ -872,6 +947,36 @@ def generated_cases(rng, n):
         if isinstance(h, str):
             out.append(Case('classify', mutate(rng, h)))
             out.append(Case('host', mutate(rng, h)))
+    return out
+
+
+def default_cases(rng, n):
+    out = []
+    hosts = ['example.com', '', None, 'h.x', '1.2.3.4', '::1', 5, 1.5, 'bad host', 'ex.com\n']
+    ports = [80, '8080', None, 0, '', 65536, '65535', True, 1.5, 'x']
+    protos = ['tcp', 'SSL', None, '', 5, 1.5, 't,p', 'ws']
+    for _ in range(n):
+        h = rng.choice(['example.com', 'a.b', '1.2.3.4', '[::1]', '::1', '', '', 'x y', gen_hostname(rng)])
+        p = rng.choice(['80', '', '', '65536', '0', '8080', 'x'])
+        text = rng.choice([h, f'{h}:{p}', f'{h}:{p}', f':{p}', f'[{h}]', mutate(rng, f'{h}:{p}')])
+        if not text.isascii():
+            text = 'example.com'
+        out.append(Case('addrd', text, Other(rng.choice(hosts)), Other(rng.choice(ports))))
+        proto = rng.choice(['tcp', 'SSL', 'ws', 't+x', 'Tcp', 'bad proto', ''])
+        stext = rng.choice([f'{proto}://{text}', f'{proto}://{text}', proto, text, f'{proto}://', mutate(rng, f'{proto}://{text}')])
+        if not stext.isascii():
+            stext = 'tcp://example.com'
+        table = {(None, 'r'): rng.choice(protos)}
+        keys = {proto, proto.lower(), stext, stext.lower(), stext.split('://', 1)[0], stext.split('://', 1)[0].lower()}
+        d = table[(None, 'r')]
+        if isinstance(d, str):
+            keys |= {d, d.lower()}
+        for k in keys:
+            if rng.random() < 0.7:
+                table[(k, 'h')] = rng.choice(hosts)
+            if rng.random() < 0.7:
+                table[(k, 'p')] = rng.choice(ports)
+        out.append(Case('svcd', stext, table))
     return out
 
 
@@ -945,7 +1050,7 @@ def corpus_cases(verif):
     out = []
     for line in corpus_lines(verif, 'C18'):
         toks = line.split()
-        out.append(Case(toks[0], *[dec_val(t) if t != 'o' else Other(None) for t in toks[1:]]))
+        out.append(Case(toks[0], *[Other(dec_val(t)) if t in ('o', 'n') else dec_val(t) for t in toks[1:]]))
     return out
 
 
@@ -1007,9 +1112,13 @@ def run(ctx):
         full = run_sweeps(ctx, res)
     # (f) generated objects, strings from and near the grammar
     evaluate(ctx, generated_cases(rng, 20000 if ctx.deep and not res.failed else 1500), res, 'generated')
+    evaluate(ctx, default_cases(rng, 12000 if ctx.deep and not res.failed else 1500), res, 'default_func')
     for c in generated_cases(random.Random(ctx.seed + 1), 2)[:4]:
         run_case(c, 4300)
         res.sample({'line': c.line[:200], 'impl': c.impl[:200]})
+    # report the shortest failing input first
+    res['violations'].sort(key=lambda v: (sum(len(a) for a in v['case'].get('args', [])), v['key']))
+    res['disagreements'].sort(key=lambda d: len(d.get('line', '')) or 10 ** 6)
     return res.finish(RULE, exhaustive={'alphabet14_len': done, 'alphabet_addr8_len': done2,
                                         'ints': '-2..65537', 'all_code_points': full})
 
@@ -1052,7 +1161,9 @@ def replay(ctx, case):
             args.append(dec(t) if i == 3 else t)
         else:
             v = dec_val(t)
-            args.append(Other(None) if t == 'o' else v)
+            args.append(Other(v) if t in ('o', 'n') else v)
+    if case['op'] == 'svcd':
+        args = [dec_val(case['args'][0]), g_decode(case['args'][1:])]
     if case['op'] == 'rx':
         name = args[2]
         RX_OBJECTS[name] = getattr(util, name, None) or re.compile(eval(case['pattern']), case['flags'])
